@@ -163,10 +163,11 @@ fn run_st(o: &Opts) {
         }
     }
     // real threads racing (monitor only; the transcript line carries the verdict the model checks trivially)
-    let rounds = if o.thorough() { 20000 } else { 1500 };
+    let rounds = if o.thorough() { 20000 } else { 400 };
     sink.case("race");
     let mut bad = 0u64;
     for round in 0..rounds {
+        sink.pending("race");
         let st = ArcConnState::new();
         let nthr = 2 + (round % 3) as usize;
         let bar = Arc::new(Barrier::new(nthr));
@@ -430,6 +431,7 @@ fn do_op(wd: &mut World, op: &[&str], sink: &mut Sink) -> String {
         }
         [k @ ("write" | "flush" | "shutdown"), i] => {
             let i: usize = i.parse().unwrap();
+            if i >= wd.snds.len() { return "fail".into(); }
             let slot = match *k { "write" => 0, "flush" => 1, _ => 2 };
             let (c, wk) = wd.snds[i].cw[slot].clone();
             let mut cx = Context::from_waker(&wk);
@@ -448,6 +450,7 @@ fn do_op(wd: &mut World, op: &[&str], sink: &mut Sink) -> String {
         }
         ["read", i] => {
             let i: usize = i.parse().unwrap();
+            if i >= wd.rcvs.len() { return "fail".into(); }
             let (c, wk) = wd.rcvs[i].c.clone();
             let mut dst: Vec<u8> = vec![];
             let r = match wd.rcvs[i].r.poll_read(&mut Context::from_waker(&wk), &mut dst) {
@@ -529,7 +532,7 @@ fn do_op(wd: &mut World, op: &[&str], sink: &mut Sink) -> String {
         [k @ ("errds" | "errdg" | "errpr"), e] => {
             let n: u64 = e.parse().unwrap();
             let err = mk_err(n);
-            let obj: &'static str = &k[3..].to_string().leak();
+            let obj: &'static str = match *k { "errds" => "ds", "errdg" => "dg", _ => "pr" };
             match *k {
                 "errds" => { wd.ep.ds.on_conn_error(&err); if wd.err_ds.is_none() { wd.err_ds = Some(format!("err:{}", n)); } }
                 "errdg" => { wd.dg.on_conn_error(&err); if wd.err_dg.is_none() { wd.err_dg = Some(format!("err:{}", n)); } }
@@ -663,6 +666,7 @@ fn run_p(o: &Opts) {
         let err_at = rng.below(n);
         let mut nerr = 0;
         let mut exhausted = false;
+        let mut shut_seen = false; // after a `shutdown` no more `mk snd`: its packet assembly would also emit the FIN of the other stream (C16's upgrade protocol, not modelled here)
         let mut k = 0;
         while k < n {
             k += 1;
@@ -679,13 +683,13 @@ fn run_p(o: &Opts) {
             }
             let c = rng.below(24);
             let op = match c {
-                0..=2 if is_ready && nerr == 0 && ns < 3 && !exhausted => { ns += 1; format!("mk snd {} {}", rng.pick(&SST), rng.below(2)) }
+                0..=2 if is_ready && nerr == 0 && ns < 3 && !exhausted && !shut_seen => { ns += 1; format!("mk snd {} {}", rng.pick(&SST), rng.below(2)) }
                 3..=4 if nerr == 0 && nr < 3 && nq_uni == 0 => { nr += 1; format!("mk rcv {}", rng.pick(&RST)) }
                 5 if nq_bi < 2 && rng.chance(1, 2) => { nq_bi += 1; s("queue bi") }
                 5 if nq_uni < 2 => { nq_uni += 1; s("queue uni") }
                 6 if is_ready && nerr == 0 => { exhausted = true; s("exhaust") }
                 7 if !is_ready => { is_ready = true; s("params") }
-                8..=11 if ns > 0 => format!("{} {}", rng.pick(&["write", "flush", "shutdown"]), rng.below(ns as u64)),
+                8..=11 if ns > 0 => { let w = *rng.pick(&["write", "flush", "shutdown"]); if w == "shutdown" { shut_seen = true; } format!("{} {}", w, rng.below(ns as u64)) }
                 12..=13 if nr > 0 => format!("read {}", rng.below(nr as u64)),
                 14 => s("acceptbi"), 15 => s("acceptuni"), 16 => s("openbi"), 17 => s("openuni"),
                 18 => s("ready"), 19 => s("dgrecv"), 20 => s("dgsend"), 21 => s("dgin"), 22 => s("dgnew"),
